@@ -21,6 +21,8 @@ import (
 	"math"
 	"os"
 	"reflect"
+	"regexp"
+	"slices"
 	"sort"
 	"strings"
 	"time"
@@ -352,6 +354,22 @@ func (lf *liveFont) encode(g font.Glyph, fontIdx int) (shown, bool) {
 	return sh, true
 }
 
+// retext gives some glyphs of a laid-out sequence another text, as a caller may do
+// (font.Glyph.Text is the caller's): several runes, combining sequences, characters
+// outside the BMP.  These travel through ToUnicode as UTF-16 with surrogate pairs.
+var exoticTexts = []string{"\U0001F600", "a\u0301", "ffi", "\U0001D49C\U0001D4B7", "x\u200dy", "\uFFFC", "e\u0301\u0323", "\U0010FFFD", "\ufb03"}
+
+func retext(lf *liveFont, seq *font.GlyphSeq, nearLimit bool) {
+	if nearLimit || e.Rand.IntN(6) != 0 {
+		return
+	}
+	for i := range seq.Seq {
+		if seq.Seq[i].GID != 0 && e.Rand.IntN(3) == 0 {
+			seq.Seq[i].Text = exoticTexts[e.Rand.IntN(len(exoticTexts))]
+		}
+	}
+}
+
 // ---------------------------------------------------------------------------
 // documents
 
@@ -393,8 +411,12 @@ func runDocument(p docPlan, label string) {
 	// numbers), another quarter also change the text rise inside a sequence, so that
 	// one TextShowGlyphs call emits several TJ operators
 	var scratch []byte
-	layoutMode := e.Rand.IntN(4)
+	layoutMode := e.Rand.IntN(5)
+	shared := &font.GlyphSeq{} // mode 4: one glyph sequence, re-used for every string
 	if len(p.fixed) > 0 {
+		layoutMode = 3
+	}
+	if p.class >= 4 && layoutMode == 4 {
 		layoutMode = 3
 	}
 	caseInfo["layout"] = layoutMode
@@ -460,7 +482,11 @@ func runDocument(p docPlan, label string) {
 							}
 						}
 					}
+					argsBefore := fmt.Sprint(args)
 					doc.TextShowKernedRaw(args...)
+					if fmt.Sprint(args) != argsBefore {
+						fail("aliasing:textshowkernedraw-changed-arguments", fmt.Sprintf("%s: TextShowKernedRaw modified its arguments", lf.k.label), caseInfo)
+					}
 					for i := range args {
 						args[i] = pdf.Integer(0) // the caller's argument slice is re-used as well
 					}
@@ -522,8 +548,37 @@ func runDocument(p docPlan, label string) {
 		}
 		texts = append(texts, text)
 		// interleave Layout and Encode: some strings are laid out early and shown later
+		nearLimit := p.class >= 4
 		pd := pending{fi, lf.F.Layout(nil, lf.size, text)}
-		nearLimit := p.class == 4 && lf.api != nil && lf.api.CodesRemaining() < 60
+		if layoutMode != 4 {
+			retext(lf, pd.seq, nearLimit)
+		}
+		nearLimit = p.class == 4 && lf.api != nil && lf.api.CodesRemaining() < 60
+		if layoutMode == 4 {
+			// caller-owned sequence: Layout appends to it, TextShowGlyphs must neither keep nor change it
+			shared.Reset()
+			var prefix []font.Glyph
+			if e.Rand.IntN(3) == 0 {
+				lf.F.Layout(shared, lf.size, lf.rep.text(0, 1+e.Rand.IntN(3)))
+				prefix = append(prefix, shared.Seq...)
+			}
+			lf.F.Layout(shared, lf.size, text)
+			for i, g := range prefix {
+				if shared.Seq[i].GID != g.GID || shared.Seq[i].Text != g.Text {
+					fail("aliasing:layout-changed-existing-glyphs", fmt.Sprintf("%s: Layout onto a non-empty sequence changed glyph %d from (%d,%q) to (%d,%q)", lf.k.label, i, g.GID, g.Text, shared.Seq[i].GID, shared.Seq[i].Text), caseInfo)
+				}
+			}
+			retext(lf, shared, nearLimit)
+			before := font.GlyphSeq{Skip: shared.Skip, Seq: append([]font.Glyph(nil), shared.Seq...)}
+			show(pending{fi, shared})
+			if before.Skip != shared.Skip || !slices.Equal(before.Seq, shared.Seq) {
+				fail("aliasing:textshowglyphs-changed-sequence", fmt.Sprintf("%s: TextShowGlyphs modified the caller's glyph sequence", lf.k.label), caseInfo)
+			}
+			for i := range shared.Seq {
+				shared.Seq[i] = font.Glyph{GID: 0, Text: "\x00", Advance: 1e6, Rise: 99}
+			}
+			continue
+		}
 		if e.Rand.IntN(3) == 0 && !nearLimit {
 			queue = append(queue, pd)
 			continue
@@ -554,7 +609,7 @@ func runDocument(p docPlan, label string) {
 			e.Dist["doc:simple-font-with-all-256-codes-used"]++
 		}
 	}
-	e.Dist[[]string{"doc:layout:kerning+rise-changes", "doc:layout:kerning", "doc:layout:raw-operators-reused-buffer", "doc:layout:plain"}[layoutMode]]++
+	e.Dist[[]string{"doc:layout:kerning+rise-changes", "doc:layout:kerning", "doc:layout:raw-operators-reused-buffer", "doc:layout:plain", "doc:layout:reused-glyph-sequence"}[layoutMode]]++
 	class := fmt.Sprintf("doc:%s:n=%d", map[int]string{0: "latin", 1: "mixed", 2: "nonlatin", 3: "ligatures", 4: "wide", 5: "overflow"}[p.class], len(fonts))
 	key := fmt.Sprintf("%v|%v|%v", labels, p.version, texts)
 	if err != nil {
@@ -663,8 +718,12 @@ func readBack(data []byte, fonts []*liveFont, expect []shown, caseInfo map[strin
 			return
 		}
 		var rc []font.Code
+		sCopy := append(pdf.String(nil), s...)
 		for c := range G.Codes(s) {
 			rc = append(rc, c)
+		}
+		if !bytes.Equal(sCopy, s) {
+			fail("aliasing:codes-changed-string", fmt.Sprintf("%v: Codes modified the PDF string", labels), caseInfo)
 		}
 		if pos+len(rc) > len(expect) {
 			bad = true
@@ -719,7 +778,15 @@ func readBack(data []byte, fonts []*liveFont, expect []shown, caseInfo map[strin
 			if rc[i].Text != wc[i].Text {
 				fail("writer-reader-text", fmt.Sprintf("%s: code %x: writer text %q, reader text %q (glyph text %q)", lf.k.label, sh.code, wc[i].Text, rc[i].Text, sh.text), ci)
 			}
-			if int(sh.gid) < len(widths) && math.Abs(rc[i].Width-widths[sh.gid]) > widthTol {
+			tol := widthTol
+			if lf.k.t3scale != 0 {
+				// glyph space of the font: widths are rounded to whole glyph space units
+				tol = 0.5*lf.k.t3scale + 1e-9
+				if want := math.Round(widths[sh.gid]/lf.k.t3scale) * lf.k.t3scale; math.Abs(rc[i].Width-want) > 1e-9 {
+					fail("type3-width-scaling", fmt.Sprintf("%s: glyph %d: width %g in text space, expected round(%g/%g)*%g = %g", lf.k.label, sh.gid, rc[i].Width, widths[sh.gid], lf.k.t3scale, lf.k.t3scale, want), ci)
+				}
+			}
+			if int(sh.gid) < len(widths) && math.Abs(rc[i].Width-widths[sh.gid]) > tol {
 				fail("width", fmt.Sprintf("%s: glyph %d advance %g reads back as %g", lf.k.label, sh.gid, widths[sh.gid], rc[i].Width), ci)
 			}
 			switch {
@@ -776,6 +843,7 @@ func readBack(data []byte, fonts []*liveFont, expect []shown, caseInfo map[strin
 		fonts[fi].textCase(G)
 		if raw, err := getDict(r, fontRes[resName[fi]]); err == nil {
 			fonts[fi].encodingCase(r, G, raw, caseInfo)
+			fonts[fi].toUnicodeCase(r, G, raw, caseInfo)
 		}
 	}
 }
@@ -895,18 +963,32 @@ func (lf *liveFont) encodingCase(r pdf.Getter, G font.Instance, raw pdf.Dict, ca
 		return
 	}
 	var enc func(byte) string
+	var width []float64
+	missing := 0.0
 	nse := false
 	type3 := false
 	switch d := gd.GetDict().(type) {
 	case *dict.TrueType:
 		enc = d.Encoding
 		nse = d.Descriptor != nil && !d.Descriptor.IsSymbolic && d.FontFile == nil
+		width = d.Width[:]
+		if d.Descriptor != nil {
+			missing = d.Descriptor.MissingWidth
+		}
 	case *dict.Type1:
 		enc = d.Encoding
 		nse = d.Descriptor != nil && !d.Descriptor.IsSymbolic && d.FontFile == nil
+		width = d.Width[:]
+		if d.Descriptor != nil {
+			missing = d.Descriptor.MissingWidth
+		}
 	case *dict.Type3:
 		enc = d.Encoding
 		type3 = true
+		width = d.Width[:]
+		if d.Descriptor != nil {
+			missing = d.Descriptor.MissingWidth
+		}
 	default:
 		return
 	}
@@ -929,6 +1011,36 @@ func (lf *liveFont) encodingCase(r pdf.Getter, G font.Instance, raw pdf.Dict, ca
 		}
 	}
 	e.Dist["encoding:real-dictionary"]++
+	// the width table of the dictionary: the model builds /FirstChar /Widths from its own encoder
+	// state with the MissingWidth the reader found, and reads every used code back
+	{
+		var parts []string
+		for _, c := range used {
+			parts = append(parts, fmt.Sprintf("%d:%s", c, wbits(width[c])))
+			if want := lf.api.Width(byte(c)); width[c] != want {
+				fail("widths:simple:real-dictionary", fmt.Sprintf("%s: code %d: width %g in the encoder, %g in the extracted dictionary", lf.k.label, c, want, width[c]), caseInfo)
+				break
+			}
+		}
+		id := nextID()
+		shape := "W"
+		if builtin {
+			shape = "B"
+		}
+		first, ok1 := num(r, raw["FirstChar"])
+		last, ok2 := num(r, raw["LastChar"])
+		arr, err := getArray(r, raw["Widths"])
+		if err != nil || !ok1 || !ok2 {
+			shape = "N"
+		}
+		e.Line("cases.txt", "%s SW %s %s %s", id, lf.tr.inst, wbits(missing), shape)
+		e.Line("impl.obs", "%s %s", id, dash(strings.Join(parts, ",")))
+		if shape == "N" {
+			e.Line("impl.obs", "%s.soft absent", id)
+		} else {
+			e.Line("impl.obs", "%s.soft %d %d %d", id, int(first), int(last), len(arr))
+		}
+	}
 	if type3 {
 		encObj, _ := getDict(r, raw["Encoding"])
 		arr, _ := getArray(r, encObj["Differences"])
@@ -951,4 +1063,95 @@ func (lf *liveFont) encodingCase(r pdf.Getter, G font.Instance, raw pdf.Dict, ca
 	id := nextID()
 	e.Line("cases.txt", "%s ER %s %s %d%s", id, b01(nse), wire, len(used), cs.String())
 	e.Line("impl.obs", "%s %s", id, dash(strings.Join(parts, ",")))
+}
+
+var (
+	reBlock = regexp.MustCompile(`(?s)begin(bfchar|bfrange)(.*?)endbf`)
+	reHex   = regexp.MustCompile(`<([0-9a-fA-F]*)>|\[|\]`)
+)
+
+// toUnicodeCase: the text values in the /ToUnicode stream of the file.  For every code the
+// stream lists: the model's decode16 of the UTF-16 units in the file against the text the
+// reader reports, and the model's encode16 of the writer's text against the units in the file.
+func (lf *liveFont) toUnicodeCase(r pdf.Getter, G font.Instance, raw pdf.Dict, caseInfo map[string]any) {
+	obj, err := pdf.Resolve(r, raw["ToUnicode"])
+	if err != nil {
+		return
+	}
+	stm, ok := obj.(*pdf.Stream)
+	if !ok {
+		return
+	}
+	data, err := pdf.ReadAll(r, nil, stm, 1<<22)
+	if err != nil {
+		return
+	}
+	type entry struct {
+		code  []byte
+		units []uint16
+	}
+	var entries []entry
+	units := func(h string) []uint16 {
+		var us []uint16
+		for i := 0; i+4 <= len(h); i += 4 {
+			var u uint16
+			fmt.Sscanf(h[i:i+4], "%04x", &u)
+			us = append(us, u)
+		}
+		return us
+	}
+	for _, blk := range reBlock.FindAllStringSubmatch(string(data), -1) {
+		toks := reHex.FindAllStringSubmatch(blk[2], -1)
+		if blk[1] == "bfchar" {
+			for i := 0; i+1 < len(toks); i += 2 {
+				entries = append(entries, entry{common.UnHex(dash(toks[i][1])), units(toks[i+1][1])})
+			}
+			continue
+		}
+		for i := 0; i+2 < len(toks); {
+			lo := common.UnHex(dash(toks[i][1]))
+			if toks[i+2][0] == "[" {
+				j := i + 3
+				for k := 0; j < len(toks) && toks[j][0] != "]"; j, k = j+1, k+1 {
+					c := append([]byte(nil), lo...)
+					c[len(c)-1] += byte(k)
+					entries = append(entries, entry{c, units(toks[j][1])})
+				}
+				i = j + 1
+			} else {
+				entries = append(entries, entry{lo, units(toks[i+2][1])}) // only the first code of the range
+				i += 3
+			}
+		}
+	}
+	e.Dist["text:tounicode-stream"]++
+	n := 0
+	for _, en := range entries {
+		if _, mine := lf.owner[string(en.code)]; !mine || len(en.units) == 0 {
+			continue
+		}
+		if n++; n > 12 {
+			break
+		}
+		var us, rtext, wtext []string
+		for _, u := range en.units {
+			us = append(us, fmt.Sprint(u))
+		}
+		for c := range G.Codes(pdf.String(en.code)) {
+			for _, rn := range c.Text {
+				rtext = append(rtext, fmt.Sprint(int(rn)))
+			}
+		}
+		for c := range lf.F.Codes(pdf.String(en.code)) {
+			for _, rn := range c.Text {
+				wtext = append(wtext, fmt.Sprint(int(rn)))
+			}
+		}
+		id := nextID()
+		e.Line("cases.txt", "%s XD %s", id, strings.Join(us, " "))
+		e.Line("impl.obs", "%s %s", id, dash(strings.Join(rtext, " ")))
+		id = nextID()
+		e.Line("cases.txt", "%s XE %s", id, strings.Join(wtext, " "))
+		e.Line("impl.obs", "%s %s", id, dash(strings.Join(us, " ")))
+	}
 }
